@@ -154,7 +154,7 @@ def run(ctx):
     if not ctx.cc("hrun_mpi", srcs, mpi=True):
         return
     rnd = random.Random(ctx.seed * 101 + 7)
-    n = 10 if ctx.tier == "quick" else 150
+    n = 10 if ctx.tier == "quick" else 60
     jobs = []
     for i in range(n):
         c = runlib.gen_configs(ctx, 1)[0]
@@ -189,7 +189,7 @@ def run(ctx):
                 agg.samples.append({"cfg": r["cfg"], "events": r["sample"]})
     # ---- rank mode: LP-level re-execution of every rank, remote paths included
     rjobs = []
-    for i in range(6 if ctx.tier == "quick" else 120):
+    for i in range(6 if ctx.tier == "quick" else 40):
         c = runlib.gen_configs(ctx, 1)[0]
         ranks = rnd.choice([2, 2, 3])
         c.update({"seed": rnd.randrange(1, 1 << 30), "mseed": rnd.randrange(1, 1 << 30), "lps": rnd.choice([4, 6, 8]),
@@ -226,7 +226,7 @@ def run(ctx):
     ctx.coverage["rank_mode"] = {"runs": ragg["runs"], "trace_lines_compared": ragg["lines"], "outcomes": ragg["outcomes"],
                                  "remote_antis": ragg["tot"].get("antis_remote", 0), "early_antis": ragg["tot"].get("early_antis", 0)}
     # ---- adversarial peer: deterministic, dense in the rare remote paths (see runlib.peer_matrix)
-    pagg = runlib.peer_matrix(ctx, 60, 1500, salt=2)
+    pagg = runlib.peer_matrix(ctx, 60, 500, salt=2)
     if pagg and pagg.divs and not ctx.violations:
         for r in pagg.divs[:2]:
             d = r["div"]
